@@ -8,6 +8,7 @@ import (
 	"encoding/json"
 	"errors"
 	"fmt"
+	"slices"
 
 	v1 "k8s.io/api/core/v1"
 	metav1 "k8s.io/apimachinery/pkg/apis/meta/v1"
@@ -21,6 +22,7 @@ import (
 	"github.com/NVIDIA/KAI-scheduler/pkg/binder/plugins"
 	"github.com/NVIDIA/KAI-scheduler/pkg/binder/plugins/state"
 	"github.com/NVIDIA/KAI-scheduler/pkg/common/constants"
+	"github.com/NVIDIA/KAI-scheduler/pkg/common/resources"
 )
 
 var InvalidCrdWarning = errors.New("invalid binding request")
@@ -41,6 +43,9 @@ func NewBinder(kubeClient client.Client, rrs resourcereservation.Interface, plug
 
 func (b *Binder) Bind(ctx context.Context, pod *v1.Pod, node *v1.Node, bindRequest *v1alpha2.BindRequest) error {
 	logger := log.FromContext(ctx)
+	if err := b.detachFromStaleGpuGroups(ctx, pod, bindRequest); err != nil {
+		return err
+	}
 	err := b.resourceReservationService.SyncForNode(ctx, bindRequest.Spec.SelectedNode)
 	if err != nil {
 		return fmt.Errorf("failed to sync reservation for pod <%s/%s> on node <%s>: %w", pod.Namespace, pod.Name, bindRequest.Spec.SelectedNode, err)
@@ -80,6 +85,30 @@ func (b *Binder) Bind(ctx context.Context, pod *v1.Pod, node *v1.Node, bindReque
 	}
 
 	b.plugins.PostBind(ctx, pod, node, bindRequest, bindingState)
+	return nil
+}
+
+// detachFromStaleGpuGroups removes GPU group labels that an earlier, abandoned bind attempt left on the pod and
+// that the current request does not select, and syncs the groups the pod leaves, so that their reservation pods
+// do not outlive their last consumer.
+func (b *Binder) detachFromStaleGpuGroups(ctx context.Context, pod *v1.Pod, bindRequest *v1alpha2.BindRequest) error {
+	var staleGroups []string
+	for _, gpuGroup := range resources.GetGpuGroups(pod) {
+		if !slices.Contains(bindRequest.Spec.SelectedGPUGroups, gpuGroup) {
+			staleGroups = append(staleGroups, gpuGroup)
+		}
+	}
+	if len(staleGroups) == 0 {
+		return nil
+	}
+	if err := b.resourceReservationService.RemovePodGpuGroupsConnection(ctx, pod); err != nil {
+		return fmt.Errorf("failed to remove stale GPU group labels from pod <%s/%s>: %w", pod.Namespace, pod.Name, err)
+	}
+	for _, gpuGroup := range staleGroups {
+		if err := b.resourceReservationService.SyncForGpuGroup(ctx, gpuGroup); err != nil {
+			return fmt.Errorf("failed to sync reservation of stale gpu group <%s>: %w", gpuGroup, err)
+		}
+	}
 	return nil
 }
 
